@@ -30,11 +30,11 @@ COMPONENTS = {"real": ["TradingEnv", "Transmitter", "Broker", "Exchange", "IStat
               "harness": ["seeded call-level scheduler", "recording observers", "fault ops (clock write, PRNG draw)"], "stub": []}
 PROBE_FLOORS = {"two_chain_envs_different_leads": 8, "prefix_malformed_action": 34, "prefix_missing_price": 3, "prefix_ruin": 5,
                 "prefix_abandoned_at_step_0": 18, "clock_left_in_future_by_prefix": 82, "interleaved_envs_ge_2": 59,
-                "foreign_clock_write": 47, "foreign_prng_draw": 50}
+                "foreign_clock_write": 47, "foreign_prng_draw": 50, "prefix_on_other_fold": 6, "timesteps_without_events": 14}
 
 PROFILE = {
     "n_min": 3, "n_max": 9, "n_long": 16, "p_long": 0.05, "c_min": 1, "c_max": 3, "p_bar": 1.0, "extras_max": 6,
-    "extra_kinds": ["nbbo", "custom", "obs"], "p_sparse_grid": 0.0, "p_folds": 0.3, "p_markov": 0.15, "p_warmup": 0.15,
+    "extra_kinds": ["nbbo", "custom", "obs"], "p_sparse_grid": 0.3, "p_folds": 0.35, "p_markov": 0.15, "p_warmup": 0.15,
     "delays": [0, 0, 1, 2], "contract_kinds": ["ETF", "spot", "margined", "future"], "p_with_cash": 0.2,
     "fixed_fees": [0, 0.01], "p_rate": 0.3, "spreads": [0, 0.001, 0.01],
 }
@@ -120,7 +120,13 @@ def prefix_episode(rng, env, meta, ref, tag):
     if meta.get("shock") is not None:
         kinds += ["ruin", "ruin"]
     kind = rng.choice(kinds)
-    ops = [{"op": "reset", "env": tag, "fold": meta.get("fold"), "np_seed": rng.randrange(2 ** 31)}]
+    fold = meta.get("fold")
+    if env.get("folds") and rng.random() < 0.5:
+        # the earlier episode ran on another fold of the same environment (e.g. evaluation before training)
+        fold = rng.choice(sorted(env["folds"]))
+    ops = [{"op": "reset", "env": tag, "fold": fold, "np_seed": rng.randrange(2 ** 31)}]
+    if fold != meta.get("fold"):
+        ops[0]["other_fold"] = True
     n = len(ref)
     nsp = len(env["contracts"]) + (1 if env["space"].get("with_cash") else 0)
     if kind == "complete":
@@ -355,6 +361,12 @@ def execute(scenario):
                     probe("prefix_abandoned_at_step_0")
                 elif pk == "length_override":
                     probe("prefix_reset_with_length_override")
+            if any(op.get("other_fold") and op.get("env") == tag for op in scenario["script"]):
+                probe("prefix_on_other_fold")
+            env_spec = scenario["envs"][tag]
+            with_events = {e["t"] for e in env_spec["events"]}
+            if any(g not in with_events for g in env_spec["grid"][1:]):
+                probe("timesteps_without_events")
             if len(eps) >= 3:
                 first_ref_now = eps[-2][0].get("now")
                 prev_last = [r for r in eps[-3] if r.get("kind") in ("step", "reset")][-1].get("now")
